@@ -139,6 +139,86 @@ def _ppo_collector(rep, tier, seed):
             return g
         e.obligation("every-row=(current obs, action passed to env, that step's reward/flag, V(successor)); last_observation=final obs", rows,
                      site=f"{site}:rollout-rows-equal-what-the-environment-produced")
+    # ---- the logger branch: with a logger attached the collector reads the finished episodes from `info` and bootstraps a
+    # finished environment from its FINAL observation (same-step autoreset: next_obs already is the reset observation).
+    # Which environments finish at which step is a concrete pattern per run (the branch is Python control flow).
+    T, N = 2, 2
+    patterns = [((False, True), (False, False)), ((True, False), (False, True)), ((True, True), (False, False))]
+    if tier != "quick":
+        patterns += [((False, False), (True, False)), ((False, True), (True, True))]
+    for fin in patterns:
+        critic = MLP(D, 1, [2], "relu", nnx.Rngs(seed))
+        gdef, st = nnx.split(critic)
+
+        class _Np2:
+            def __getattr__(self, k):
+                return getattr(np, k)
+
+            @staticmethod
+            def asarray(x, *a, **k):
+                return x
+
+        class _Logger:
+            def record_stat(self, *a, **k):
+                pass
+
+            def start_new_episode(self):
+                pass
+
+        def fn2(state, obs_seq, final_obs, rewards, terms, acts, w, key, gdef=gdef, fin=fin):
+            crit = nnx.merge(gdef, state)
+
+            class Envs:
+                t = 0
+
+                def reset(self):
+                    return obs_seq[0], {}
+
+                def step(self, action):
+                    t = self.t
+                    self.t += 1
+                    info = {}
+                    if any(fin[t]):
+                        info = {"episode": {"r": np.ones(N), "l": np.ones(N, dtype=int)}, "final_obs": [final_obs[t][n] for n in range(N)],
+                                "_episode": np.asarray(fin[t])}
+                    return obs_seq[t + 1], rewards[t], terms[t], jnp.zeros(N, dtype=bool), info
+
+            class Actor:
+                t = 0
+
+                def sample(self, obs, key):
+                    t = self.t
+                    self.t += 1
+                    return acts[t] + w * obs[:, :1]
+            old = ppo.np
+            ppo.np = _Np2()
+            try:
+                traj = ppo.collect_trajectories(Envs(), Actor(), crit, key, batch_size=T, logger=_Logger())
+            finally:
+                ppo.np = old
+            succ = [jnp.stack([final_obs[t][n] if fin[t][n] else obs_seq[t + 1][n] for n in range(N)]) for t in range(T)]
+            nv_ref = jnp.stack([crit(succ[t]).reshape(N) for t in range(T)])
+            return (traj.observation, traj.action, traj.next_value, traj.last_observation), nv_ref
+        rng = np.random.default_rng(seed)
+        ex = (st, jnp.array(rng.normal(size=(T + 1, N, D)), dtype=jnp.float32), jnp.array(rng.normal(size=(T, N, D)), dtype=jnp.float32),
+              jnp.array(rng.normal(size=(T, N)), dtype=jnp.float32), jnp.zeros((T, N)), jnp.array(rng.normal(size=(T, N, 1)), dtype=jnp.float32), 0.5, jax.random.key(0))
+        tag = "".join("".join("x" if f_ else "-" for f_ in row) + "|" for row in fin)
+        e = E1(rep, sess, fn2, ex, f"ppo.collect_trajectories[logger attached,finished={tag}]", validate_sets=[ex])
+
+        def rows2(i, o, fin=fin):
+            (obs_, act_, nv_, last_), nvr = o
+            obs_seq, acts, w = S.SA(i[1]), S.SA(i[5]), S.SA(i[6])
+            lead = tuple(np.shape(nv_))
+            g = []
+            for t in range(T):
+                for n in range(N):
+                    ix = (t, n) if len(lead) == 2 else (n * T + t,)
+                    g.append(S.close(S.SA(obs_)[ix], obs_seq[t, n]))  # stored / acted-on observation: what the env last returned
+                    g.append(S.close(S.SA(act_)[ix].reshape(-1)[0], acts[t, n, 0] + w * obs_seq[t, n, 0]))
+                    g.append(S.close(S.SA(nv_)[ix], S.SA(nvr)[t, n]))  # bootstrap: own final observation if finished, else own successor
+            g.append(S.close(S.SA(last_), obs_seq[T]))
+            return g
+        e.obligation("rows-and-bootstrap-values-with-finished-episodes", rows2, site="ppo.collect_trajectories:rollout-rows-with-a-logger-attached-and-finished-episodes")
     rep.add_queries(sess)
 
 
